@@ -30,13 +30,25 @@ def rule_status_flag(chk, rid):
     chk.ob(rid, C, bool(err_stat), "error edge sets Status.ERROR", fn, ea.mod, key="error:status")
     chk.ob(rid, C, bool(ok_stat), "success edge sets Status.READY", fn, ea.mod, key="success:status")
     mds = [n for n in cfg.nodes if n.kind == "stmt" and isinstance(n.ast, ast.Assign) and U(n.ast.targets[0]).replace('"', "'") == "metadata['status']"]
-    for pol, name in ((True, "error"), (False, "success")):
-        sel = [n for n in mds if on_edge(n.id, pol)]
-        ok = bool(sel) and all(U(n.ast.value) == "self.status.value" for n in sel)
+    good_md = [n.id for n in mds if U(n.ast.value) == "self.status.value"]
+    upd_nodes = [cfg.node_of(c) for c in calls_in(fn, tail="update") if call_recv(c) == "state.metadata" and c.args and U(c.args[0]) == "metadata"]
+    for sel_stat, name in ((err_stat, "error"), (ok_stat, "success")):
+        # path form (robust to a merged tail): every path from the edge's status assignment to a return copies self.status.value into
+        # the metadata - with no other status assignment in between - and then merges the metadata into the state
+        ok = bool(sel_stat) and bool(good_md)
+        ok2 = ok and bool(upd_nodes)
+        for s_ in sel_stat:
+            rets_ = [r for r in cfg.returns() if cfg.can_reach(s_.id, r)]
+            ok = ok and bool(rets_) and all(cfg.must_pass(s_.id, r, good_md) for r in rets_)
+            others = [x.id for x in stat if x.id != s_.id and cfg.can_reach(s_.id, x.id) and any(cfg.can_reach(x.id, m_) for m_ in good_md)]
+            ok = ok and not others
+            bad_md = [n.id for n in mds if n.id not in good_md and cfg.can_reach(s_.id, n.id)]
+            ok = ok and not bad_md
+            for m_ in good_md:
+                if cfg.can_reach(s_.id, m_):
+                    ok2 = ok2 and all(cfg.must_pass(m_, r, upd_nodes) for r in rets_ if cfg.can_reach(m_, r))
         chk.ob(rid, C, ok, f"{name} edge copies the status into the result's metadata", fn, ea.mod, key=f"{name}:metadata-status")
-        upd = [cfg.node_of(c) for c in calls_in(fn, tail="update") if call_recv(c) == "state.metadata" and on_edge(cfg.node_of(c), pol)]
-        ok = bool(upd) and all(any(cfg.can_reach(s.id, u) for u in upd) for s in sel)
-        chk.ob(rid, C, ok, f"{name} edge merges the metadata into the state after setting the status", fn, ea.mod, key=f"{name}:merge")
+        chk.ob(rid, C, ok2, f"{name} edge merges the metadata into the state after setting the status", fn, ea.mod, key=f"{name}:merge")
     flags = [n for n in cfg.nodes if n.kind == "stmt" and isinstance(n.ast, ast.Assign) and U(n.ast.targets[0]) == "state.is_error"]
     eflags = [n for n in flags if on_edge(n.id, True) and U(n.ast.value) == "True"]
     chk.ob(rid, C, bool(eflags), "error edge sets state.is_error = True", fn, ea.mod, key="error:flag")
@@ -145,23 +157,38 @@ def rule_attribute_persistence(chk, rid):
     chk.rule(rid, "attribute persistence: carried-over attributes are the result state's attributes filtered by first-character-"
                   "upper-case, then overlaid with the command's own attributes (in that order)")
     fn, cfg, C = ea.fn, ea.cfg, ea.C
-    ats = [n for n in cfg.nodes if n.kind == "stmt" and isinstance(n.ast, ast.Assign) and U(n.ast.targets[0]).replace('"', "'") == "metadata['attributes']"]
-    filt = [n for n in ats if isinstance(n.ast.value, ast.DictComp)]
-    over = [n for n in ats if "cmd_metadata.attributes" in U(n.ast.value)]
+    Q = lambda t: t.replace('"', "'")
+    stmts = [n for n in cfg.nodes if n.kind == "stmt" and n.ast is not None]
+    # the filter: a dict comprehension (assigned to metadata['attributes'] or to a local that ends up there)
+    filt = [n for n in stmts if isinstance(n.ast, ast.Assign) and isinstance(n.ast.value, ast.DictComp) and "attributes" in Q(U(n.ast.value.generators[0].iter))]
     ok = len(filt) == 1
+    holder = None
     if ok:
         dc = filt[0].ast.value
         g = dc.generators[0]
         kv = U(g.target.elts[0]) if isinstance(g.target, ast.Tuple) else ""
-        ok = len(g.ifs) == 1 and U(g.ifs[0]) == f"{kv}[0].isupper()" and "state.metadata['attributes'].items()" in U(g.iter).replace('"', "'")
+        ok = len(g.ifs) == 1 and U(g.ifs[0]) == f"{kv}[0].isupper()" and "state.metadata['attributes'].items()" in Q(U(g.iter)) \
+            and isinstance(g.target, ast.Tuple) and U(dc.key) == kv and U(dc.value) == U(g.target.elts[1])
+        holder = Q(U(filt[0].ast.targets[0]))
     chk.ob(rid, C, ok, "persistence filter is `key[0].isupper()` over the state's attributes", filt[0].ast if filt else fn, ea.mod, key="filter")
+    # the overlay: dict(<filtered>, **cmd_metadata.attributes) or <filtered>.update(cmd_metadata.attributes)
+    over = [n for n in stmts if not isinstance(n.ast, (ast.If, ast.While)) and "cmd_metadata.attributes" in U(n.ast)]
     ok = len(over) == 1 and bool(filt) and cfg.can_reach(filt[0].id, over[0].id) and not cfg.can_reach(over[0].id, filt[0].id)
     chk.ob(rid, C, ok, "the command's own attributes are overlaid after the filter", over[0].ast if over else fn, ea.mod, key="overlay-order")
-    if over:
-        v = over[0].ast.value
-        ok = isinstance(v, ast.Call) and call_name(v) == "dict" and v.args and "metadata.get('attributes'" in U(v.args[0]).replace('"', "'") and \
-            any(k.arg is None and U(k.value) == "cmd_metadata.attributes" for k in v.keywords)
-        chk.ob(rid, C, ok, "overlay = dict(filtered, **cmd_metadata.attributes)", over[0].ast, ea.mod, key="overlay-shape")
+    if over and holder:
+        a = over[0].ast
+        base_ok = lambda t: Q(t) == holder or (holder == "metadata['attributes']" and "metadata.get('attributes'" in Q(t))
+        ok = False
+        if isinstance(a, ast.Assign) and isinstance(a.value, ast.Call) and call_name(a.value) == "dict" and a.value.args:
+            ok = base_ok(U(a.value.args[0])) and any(k.arg is None and U(k.value) == "cmd_metadata.attributes" for k in a.value.keywords) \
+                and Q(U(a.targets[0])) in (holder, "metadata['attributes']")
+        elif isinstance(a, ast.Expr) and isinstance(a.value, ast.Call) and call_tail(a.value) == "update":
+            ok = base_ok(call_recv(a.value) or "") and len(a.value.args) == 1 and U(a.value.args[0]) == "cmd_metadata.attributes"
+        chk.ob(rid, C, ok, "overlay = dict(filtered, **cmd_metadata.attributes) or filtered.update(cmd_metadata.attributes)", a, ea.mod, key="overlay-shape")
+        if holder != "metadata['attributes']":
+            fin = [n for n in stmts if isinstance(n.ast, ast.Assign) and Q(U(n.ast.targets[0])) == "metadata['attributes']" and Q(U(n.ast.value)) == holder]
+            chk.ob(rid, C, bool(fin) and all(cfg.can_reach(over[0].id, f.id) and not cfg.can_reach(f.id, over[0].id) for f in fin),
+                   f"the filtered and overlaid `{holder}` is what ends up in metadata['attributes']", fin[0].ast if fin else fn, ea.mod, key="overlay-stored")
 
 
 def rule_filename(chk, rid):
